@@ -387,18 +387,23 @@ theorem chanDiff_static (w : World) (c : Nat) (pts : Int) : (w.chanDiff c pts).1
   · rfl
   · split
     · rfl
-    · simp only
-      split <;> rfl
+    · split
+      · rfl
+      · simp only
+        split <;> rfl
 
 theorem chanDiff_cases (w : World) (c : Nat) (pts : Int) :
     let cand := w.happened.filter fun e : Entry => e.seqKey == some (2 + c) && decide (e.pos > pts)
     let part := (cut w.chSlice cand).1
-    (w.chanDiff c pts).2 = .error ∨ (∃ p, (w.chanDiff c pts).2 = .tooLong p) ∨
+    (w.chanDiff c pts).2 = .error ∨ (w.chanDiff c pts).2 = .priv ∨ (∃ p, (w.chanDiff c pts).2 = .tooLong p) ∨
     ((w.chanDiff c pts).2 = .empty (max pts (w.serverChan c)) ∧ cand = []) ∨
     ((w.chanDiff c pts).2 = .diff (part.filter (·.kind == .chmsg)) (part.filter (·.kind == .chother) ++ w.extrasOf (2 + c))
         (if part.isEmpty then max pts (w.serverChan c) else lastPos pts (fun _ => true) part)
         (!(cut w.chSlice cand).2)) := by
   unfold World.chanDiff
+  split
+  · left; rfl
+  right
   split
   · left; rfl
   right
